@@ -465,6 +465,62 @@ pub fn judge_mutable(which: &str, r: &RefWalk, log: &[Evt]) -> Option<(String, S
 }
 
 /// run the four traversal variants on one function and compare with the reference walk
+/// a visitor that overrides a few instruction-specific hooks only and counts how often each runs:
+/// a hook hears of the instructions of its own kind, whatever else the visitor overrides or not
+#[derive(Default)]
+struct VP {
+    call: usize,
+    call_indirect: usize,
+    br: usize,
+    local_get: usize,
+    konst: usize,
+}
+impl<'i> Visitor<'i> for VP {
+    fn visit_call(&mut self, _: &Call) {
+        self.call += 1;
+    }
+    fn visit_call_indirect(&mut self, _: &CallIndirect) {
+        self.call_indirect += 1;
+    }
+    fn visit_br(&mut self, _: &walrus::ir::Br) {
+        self.br += 1;
+    }
+    fn visit_local_get(&mut self, _: &walrus::ir::LocalGet) {
+        self.local_get += 1;
+    }
+    fn visit_const(&mut self, _: &walrus::ir::Const) {
+        self.konst += 1;
+    }
+}
+#[derive(Default)]
+struct MP(VP);
+impl VisitorMut for MP {
+    fn visit_call_mut(&mut self, _: &mut Call) {
+        self.0.call += 1;
+    }
+    fn visit_call_indirect_mut(&mut self, _: &mut CallIndirect) {
+        self.0.call_indirect += 1;
+    }
+    fn visit_br_mut(&mut self, _: &mut walrus::ir::Br) {
+        self.0.br += 1;
+    }
+    fn visit_local_get_mut(&mut self, _: &mut walrus::ir::LocalGet) {
+        self.0.local_get += 1;
+    }
+    fn visit_const_mut(&mut self, _: &mut walrus::ir::Const) {
+        self.0.konst += 1;
+    }
+}
+fn judge_partial(which: &str, r: &RefWalk, v: &VP) -> Option<(String, String)> {
+    let n = |name: &str| r.events.iter().filter(|e| matches!(e.0, Evt::Instr(_)) && e.2 == name).count();
+    for (hook, got, want) in [("Call", v.call, n("Call")), ("CallIndirect", v.call_indirect, n("CallIndirect")), ("Br", v.br, n("Br")), ("LocalGet", v.local_get, n("LocalGet")), ("Const", v.konst, n("Const"))] {
+        if got != want {
+            return Some((format!("{}:partial-visitor:hook-count:{}", which, hook), format!("a visitor overriding only a few instruction hooks: the {} hook ran {} times, the tree has {} such instructions", hook, got, want)));
+        }
+    }
+    None
+}
+
 pub fn check_function(m: &mut Module, fid: FunctionId) -> Vec<(String, String)> {
     let mut out = vec![];
     let f = match &m.funcs.get(fid).kind {
@@ -489,12 +545,22 @@ pub fn check_function(m: &mut Module, fid: FunctionId) -> Vec<(String, String)> 
         if let Some(x) = judge_immutable("nested-traversal-in-callback", &r, &v.rec.log) {
             out.push(x);
         }
+        let mut v = VP::default();
+        dfs_in_order(&mut v, f, start);
+        if let Some(x) = judge_partial("immutable", &r, &v) {
+            out.push(x);
+        }
     }
     let fm = m.funcs.get_mut(fid).kind.unwrap_local_mut();
     let r = reference_walk(fm, start);
     let mut v = MA(Rec::new(true));
     dfs_pre_order_mut(&mut v, fm, start);
     if let Some(x) = judge_mutable("default-hooks", &r, &v.0.log) {
+        out.push(x);
+    }
+    let mut v = MP::default();
+    dfs_pre_order_mut(&mut v, fm, start);
+    if let Some(x) = judge_partial("mutable", &r, &v.0) {
         out.push(x);
     }
     let mut v = MB2(Rec::new(true));
